@@ -26,6 +26,7 @@ func init() {
 		Assumptions: []string{"nodes are decoded with the independent decoder; a Store whose bytes it cannot decode is counted (undecodable) and only the hash/name clauses are applied to it"},
 		MinObs:      map[string]int64{"store_events": 20000, "logical_nodes_seen_twice": 1000, "roots_recorded": 2000},
 		Run:         runC08,
+		EvalObs:     []string{"store_events"},
 	})
 }
 
